@@ -69,6 +69,33 @@ func c17families() []c17family {
 			g.NTs[0] = g.Mk(gram.OpAny, g.Mk(gram.OpSeqOf, kids...), g.Rune(l[0]))
 			return c17gram(g, tick), string(l[0]) + rep(tail, (n-1)/step)
 		}},
+		{"direct, two left-recursive alternatives P -> P b | P c | a", true, func(r *rand.Rand, n int, tick func(*parsley.Context)) (parsley.Parser, string) {
+			l := c17letters(r, 3)
+			g := gram.New(string(l), 1)
+			g.NTs[0] = g.Mk(gram.OpAny, g.Mk(gram.OpSeqOf, g.Ref(0), g.Rune(l[1])), g.Mk(gram.OpSeqOf, g.Ref(0), g.Rune(l[2])), g.Rune(l[0]))
+			s := string(l[0])
+			for i := 0; len(s) < n; i++ {
+				s += string(l[1+(i*7+i/3)%2])
+			}
+			return c17gram(g, tick), s
+		}},
+		{"per-operator alternatives E -> E + T | E - T | T ; T -> T * F | T / F | F ; F -> ( E ) | n", true, func(r *rand.Rand, n int, tick func(*parsley.Context)) (parsley.Parser, string) {
+			// single-byte version over the grammar model: p=+ m=- t=* d=/ o=( c=) n=number
+			g := gram.New("pmtdocn", 3)
+			g.NTs[0] = g.Mk(gram.OpAny, g.Mk(gram.OpSeqOf, g.Ref(0), g.Rune('p'), g.Ref(1)), g.Mk(gram.OpSeqOf, g.Ref(0), g.Rune('m'), g.Ref(1)), g.Ref(1))
+			g.NTs[1] = g.Mk(gram.OpAny, g.Mk(gram.OpSeqOf, g.Ref(1), g.Rune('t'), g.Ref(2)), g.Mk(gram.OpSeqOf, g.Ref(1), g.Rune('d'), g.Ref(2)), g.Ref(2))
+			g.NTs[2] = g.Mk(gram.OpAny, g.Mk(gram.OpSeqOf, g.Rune('o'), g.Ref(0), g.Rune('c')), g.Rune('n'))
+			ops := "ptmd"
+			s := "n"
+			for i := r.Intn(5); len(s) < n-2; i++ {
+				if i%5 == 4 {
+					s = "o" + s + "c"
+				} else {
+					s += string(ops[i%4]) + "n"
+				}
+			}
+			return c17gram(g, tick), s
+		}},
 		{"mutual pair A -> B t | a ; B -> A u | d", true, func(r *rand.Rand, n int, tick func(*parsley.Context)) (parsley.Parser, string) {
 			l := c17letters(r, 4)
 			g := gram.New(string(l), 2)
@@ -174,7 +201,32 @@ type c17result struct {
 	panicv string
 }
 
-func c17run(f c17family, seed int64, n int, limit int) (res c17result, input string) {
+// c17corrupt replaces one byte of the family's input by a byte no family uses: the parse then fails
+// (an invalid sentence has no parse at all, so the grammar stays unambiguous on it) and the work
+// spent on FAILING has to stay polynomial as well.
+func c17corrupt(in string, where string) string {
+	if len(in) == 0 || where == "valid" {
+		return in
+	}
+	b := []byte(in)
+	switch where {
+	case "bad-first":
+		b[0] = '!'
+	case "bad-second":
+		if len(b) > 1 {
+			b[1] = '!'
+		}
+	case "bad-middle":
+		b[len(b)/2] = '!'
+	case "bad-last":
+		b[len(b)-1] = '!'
+	}
+	return string(b)
+}
+
+var c17variants = []string{"valid", "bad-first", "bad-second", "bad-middle", "bad-last"}
+
+func c17run(f c17family, seed int64, n int, limit int, where string) (res c17result, input string) {
 	r := rand.New(rand.NewSource(seed))
 	tick := func(ctx *parsley.Context) {
 		if limit > 0 && ctx.CallCount() > limit {
@@ -182,6 +234,7 @@ func c17run(f c17family, seed int64, n int, limit int) (res c17result, input str
 		}
 	}
 	p, in := f.build(r, n, tick)
+	in = c17corrupt(in, where)
 	input = in
 	file := text.NewFile("f", []byte(in))
 	ctx := parsley.NewContext(parsley.NewFileSet(file), text.NewReader(file))
@@ -218,76 +271,81 @@ func c17exec(j run.Job, a *run.Acc) {
 	}
 	for v := 0; v < j.N; v++ { // v: variant (randomised terminals / shapes)
 		seed := j.Seed + int64(v)*7919
-		prevCalls := map[int]int{}
-		for _, n := range sizes {
-			if !f.judged && n > 64 {
-				continue // information only: cubic work with long result lists, not worth the minutes
-			}
-			if !a.Begin() {
-				continue
-			}
-			a.Count("size pairs (n, 2n)", 1)
-			// the length-n run is bounded as well, so that a regression cannot hang the check: 16 x the count of
-			// the previous (half) size, or 10^6 calls for the smallest size
-			baseLimit := 1000000
-			if prev, ok := prevCalls[n/2]; ok {
-				baseLimit = 16*prev + 1000
+		for _, where := range c17variants {
+			prevCalls := map[int]int{}
+			for _, n := range sizes {
+				if !f.judged && n > 64 {
+					continue // information only: cubic work with long result lists, not worth the minutes
+				}
+				if !a.Begin() {
+					continue
+				}
+				a.Count("size pairs (n, 2n)", 1)
+				// the length-n run is bounded as well, so that a regression cannot hang the check: 16 x the count of
+				// the previous (half) size, or 10^6 calls for the smallest size
+				baseLimit := 1000000
+				if prev, ok := prevCalls[n/2]; ok {
+					baseLimit = 16*prev + 1000
+					if !f.judged {
+						baseLimit = 400 * prev
+					}
+				}
+				base, in1 := c17run(f, seed, n, baseLimit, where)
+				if base.over {
+					a.Violate("call-budget-exceeded-at-base-size", "call-budget-exceeded-at-base-size", map[string]any{"family": f.name, "variant_seed": seed, "n": n, "limit": baseLimit, "input": where, "input_n": trunc(in1, 80)})
+					break
+				}
+				prevCalls[n] = base.calls
+				d := map[string]any{"family": f.name, "variant_seed": seed, "n": n, "input": where, "input_n": trunc(in1, 80), "calls_n": base.calls}
+				if base.panicv != "" || (!base.ok && where == "valid") || (base.ok && where != "valid") {
+					d["panic"] = base.panicv
+					a.Violate("family-input-not-parsed", "family-input-not-parsed", d)
+					continue
+				}
+				// determinism: three runs with freshly constructed grammars
+				for k := 0; k < 2; k++ {
+					again, _ := c17run(f, seed, n, baseLimit, where)
+					if again.calls != base.calls {
+						d["calls_again"] = again.calls
+						a.Violate("call-count-not-deterministic", "call-count-not-deterministic", d)
+					}
+				}
+				a.Count("determinism repetitions", 2)
+				limit := 16 * base.calls
 				if !f.judged {
-					baseLimit = 400 * prev
+					limit = 400 * base.calls
 				}
-			}
-			base, in1 := c17run(f, seed, n, baseLimit)
-			if base.over {
-				a.Violate("call-budget-exceeded-at-base-size", "call-budget-exceeded-at-base-size", map[string]any{"family": f.name, "variant_seed": seed, "n": n, "limit": baseLimit})
-				break
-			}
-			prevCalls[n] = base.calls
-			d := map[string]any{"family": f.name, "variant_seed": seed, "n": n, "input_n": trunc(in1, 80), "calls_n": base.calls}
-			if base.panicv != "" || !base.ok {
-				d["panic"] = base.panicv
-				a.Violate("family-input-not-parsed", "family-input-not-parsed", d)
-				continue
-			}
-			// determinism: three runs with freshly constructed grammars
-			for k := 0; k < 2; k++ {
-				again, _ := c17run(f, seed, n, baseLimit)
-				if again.calls != base.calls {
-					d["calls_again"] = again.calls
-					a.Violate("call-count-not-deterministic", "call-count-not-deterministic", d)
+				dbl, in2 := c17run(f, seed, 2*n, limit, where)
+				d["calls_2n"] = dbl.calls
+				d["input_2n_len"] = len(in2)
+				ratio := float64(dbl.calls) / float64(base.calls)
+				d["ratio"] = ratio
+				key := fmt.Sprintf("%s | %s | n=%03d", f.name, where, n)
+				a.SetMax("ratio x1000: "+key, int64(ratio*1000))
+				// cross-process determinism: both replicas (different worker processes) record the same count
+				if v == 0 {
+					a.SetMax("calls "+key, int64(base.calls))
+					a.SetMax("-calls "+key, -int64(base.calls))
 				}
-			}
-			a.Count("determinism repetitions", 2)
-			limit := 16 * base.calls
-			if !f.judged {
-				limit = 400 * base.calls
-			}
-			dbl, in2 := c17run(f, seed, 2*n, limit)
-			d["calls_2n"] = dbl.calls
-			d["input_2n_len"] = len(in2)
-			ratio := float64(dbl.calls) / float64(base.calls)
-			d["ratio"] = ratio
-			key := fmt.Sprintf("%s | n=%03d", f.name, n)
-			a.SetMax("ratio x1000: "+key, int64(ratio*1000))
-			// cross-process determinism: both replicas (different worker processes) record the same count
-			if v == 0 {
-				a.SetMax("calls "+key, int64(base.calls))
-				a.SetMax("-calls "+key, -int64(base.calls))
-			}
-			switch {
-			case dbl.panicv != "":
-				d["panic"] = dbl.panicv
-				a.Violate("panic", "panic", d)
-			case !f.judged:
-				a.Count("information-only pairs (ambiguous inputs)", 1)
-			case dbl.over || dbl.calls > 16*base.calls:
-				a.Violate("doubling-multiplies-calls-by-more-than-16", "doubling-multiplies-calls-by-more-than-16", d)
-			case !dbl.ok:
-				a.Violate("family-input-not-parsed", "family-input-not-parsed", d)
-			default:
-				a.Count("judged pairs within the bound", 1)
-				a.NonTrivial(fmt.Sprintf("%s/%d/%d", f.name, seed, n))
-				if n == 64 {
-					a.Sample(f.name, d)
+				switch {
+				case dbl.panicv != "":
+					d["panic"] = dbl.panicv
+					a.Violate("panic", "panic", d)
+				case !f.judged:
+					a.Count("information-only pairs (ambiguous inputs)", 1)
+				case dbl.over || dbl.calls > 16*base.calls:
+					a.Violate("doubling-multiplies-calls-by-more-than-16", "doubling-multiplies-calls-by-more-than-16", d)
+				case !dbl.ok && where == "valid":
+					a.Violate("family-input-not-parsed", "family-input-not-parsed", d)
+				default:
+					a.Count("judged pairs within the bound", 1)
+					a.NonTrivial(fmt.Sprintf("%s/%s/%d/%d", f.name, where, seed, n))
+					if where != "valid" {
+						a.Count("judged pairs on invalid sentences (failing parses)", 1)
+					}
+					if n == 64 {
+						a.Sample(f.name+" / "+where, d)
+					}
 				}
 			}
 		}
